@@ -219,8 +219,13 @@ def check_knn_scan(rep, pre: str, scan: KnnScan, graph: Term, allow_self_skip: b
     self_skip = ("cmp", "!=", *sorted([scan.i, scan.j], key=repr))
     for g, pol in extra:
         t = g if pol else mk_not(g)
+        never = [("cmp", "!=", *sorted([x, scan.j], key=repr)) for x in (("K", "NIL"), ("const", -1))]
         if t == self_skip and allow_self_skip and kinds.kind(scan.i) == kinds.kind(scan.j) and kinds.kind(scan.i) is not None:
             rep.guard(pre + "KNN-guard", w, g, ws, True, "a node is not its own neighbour (same index space)")
+        elif t in never and kinds.kind(scan.j) is not None and kinds.kind(scan.j)[0] == "NodeIdx" \
+                and w.repo.constants.get("NIL") == -1:
+            # `j != exclude` with exclude = NIL (-1): a position of a node loop is never negative - the test holds always
+            rep.guard(pre + "KNN-guard", w, g, ws, True, "a node position never equals NIL")
         else:
             rep.guard(pre + "KNN-guard", w, g, ws, False,
                       "the scan body is guarded: not every node of the graph is a candidate for every query "
